@@ -9,10 +9,13 @@ package crypto
 //@ runtags [C19]
 
 //@ func (ECDSAPriv).Sign
+//@   loops 0
 //@   modifies nothing
 //@   ensures [C19] @sixtyFourBytes implies(result1 == nil, len(result0) == 64)
 //@ func (ECDSAPub).Verify
+//@   loops 0
 //@   modifies nothing
 //@   requires len(sig) >= 64
 //@ func Hash160
+//@   loops 0
 //@   nopanic
